@@ -134,7 +134,7 @@ func (h Header) ContainsObject(obj parser.QueryExpression) (int, bool) {
 			continue
 		}
 
-		if !strings.EqualFold(f.Identifier, column) {
+		if !equalFieldIdentifiers(f.Identifier, column) {
 			continue
 		}
 
@@ -146,6 +146,43 @@ func (h Header) ContainsObject(obj parser.QueryExpression) (int, bool) {
 		return -1, false
 	}
 	return idx, true
+}
+
+// equalFieldIdentifiers reports whether two formatted expressions denote the same object. Letter case is
+// ignored, except inside string literals: LAG(c, 1, 'a') and lag(C, 1, 'a') are the same column, LAG(c, 1, 'A')
+// is another one.
+func equalFieldIdentifiers(a string, b string) bool {
+	if a == b {
+		return true
+	}
+	if !strings.EqualFold(a, b) {
+		return false
+	}
+
+	ra, rb := []rune(a), []rune(b)
+	if len(ra) != len(rb) {
+		return true
+	}
+
+	var quote rune = 0
+	escaped := false
+	for i := range ra {
+		switch {
+		case quote == 0:
+			if ra[i] == '\'' || ra[i] == '`' {
+				quote = ra[i]
+			}
+		case quote == '\'' && ra[i] != rb[i]:
+			return false
+		case escaped:
+			escaped = false
+		case ra[i] == '\\':
+			escaped = true
+		case ra[i] == quote:
+			quote = 0
+		}
+	}
+	return true
 }
 
 func (h Header) SearchIndex(fieldRef parser.QueryExpression) (int, error) {
